@@ -175,7 +175,7 @@ func runOnce(job *pipeJob, s *schedule, keep bool) (res *pipeResult) {
 	}
 	fs, err := p.Run(ctx)
 	if err != nil {
-		res.Err = "run: " + firstLine(err.Error())
+		res.Err = "run: " + pipeFirstLine(err.Error())
 		return res
 	}
 	for _, f := range fs.AsFiles() {
@@ -196,12 +196,12 @@ func runOnce(job *pipeJob, s *schedule, keep bool) (res *pipeResult) {
 	}
 	schemas, err := p2.LoadSchemas(ctx)
 	if err != nil {
-		res.Err = "inspect-load: " + firstLine(err.Error())
+		res.Err = "inspect-load: " + pipeFirstLine(err.Error())
 		return res
 	}
 	langs, err := p2.OutputLanguages()
 	if err != nil {
-		res.Err = "inspect-langs: " + firstLine(err.Error())
+		res.Err = "inspect-langs: " + pipeFirstLine(err.Error())
 		return res
 	}
 	names := make([]string, 0, len(langs))
@@ -222,7 +222,7 @@ func runOnce(job *pipeJob, s *schedule, keep bool) (res *pipeResult) {
 	for _, v := range views {
 		c, err := p2.ContextForLanguage(v.lang, schemas)
 		if err != nil {
-			res.Err = v.name + ": " + firstLine(err.Error())
+			res.Err = v.name + ": " + pipeFirstLine(err.Error())
 			return res
 		}
 		b, err := json.Marshal(c)
@@ -238,7 +238,7 @@ func runOnce(job *pipeJob, s *schedule, keep bool) (res *pipeResult) {
 	return res
 }
 
-func firstLine(s string) string {
+func pipeFirstLine(s string) string {
 	if os.Getenv("VERIF_DEBUG") != "" {
 		return s
 	}
@@ -423,7 +423,7 @@ func pipeDiffClasses(job *pipeJob, base, other *pipeResult) (classes []string, d
 	return classes, detail
 }
 
-func contains(l []string, x string) bool {
+func pipeContains(l []string, x string) bool {
 	for _, y := range l {
 		if x == y {
 			return true
@@ -609,7 +609,7 @@ func (e *explorer) job(job *pipeJob) {
 		cl2, _ := pipeDiffClasses(job, base, r2)
 		cl3, _ := pipeDiffClasses(job, base, b2)
 		confirmed := len(cl2) > 0 && len(cl3) == 0
-		if mode == "single-occurrence" && s != nil && len(s.Plan) == 1 && !contains(cl, "ir") && !contains(cl, "error") {
+		if mode == "single-occurrence" && s != nil && len(s.Plan) == 1 && !pipeContains(cl, "ir") && !pipeContains(cl, "error") {
 			// one occurrence only touched the generate phase or one inspect view. Does this SITE feed the IR? Apply the
 			// same permutation to every occurrence of the site (generate and inspect phases alike) and look at the IR.
 			var code int
@@ -624,7 +624,7 @@ func (e *explorer) job(job *pipeJob) {
 			}
 			rw := e.run(job, &schedule{Plan: plan}, false)
 			e.runs++
-			if clw, _ := pipeDiffClasses(job, base, rw); contains(clw, "ir") {
+			if clw, _ := pipeDiffClasses(job, base, rw); pipeContains(clw, "ir") {
 				cl = []string{"ir"}
 				det["note"] = "classified ir: permuting every occurrence of this site changes the cog inspect views"
 			}
@@ -809,7 +809,7 @@ func c07Merge(args []string) int {
 			}
 			schemas, err := p.LoadSchemas(context.Background())
 			if err != nil {
-				errs = firstLine(err.Error())
+				errs = pipeFirstLine(err.Error())
 				return
 			}
 			res = J{}
@@ -904,7 +904,7 @@ func c07Immut(args []string) int {
 			}
 			schemas, err := p.LoadSchemas(ctx)
 			if err != nil {
-				rec["err"] = "load: " + firstLine(err.Error())
+				rec["err"] = "load: " + pipeFirstLine(err.Error())
 				return
 			}
 			snap := func() []byte { b, _ := json.Marshal(schemas); return b }
@@ -939,7 +939,7 @@ func c07Immut(args []string) int {
 			for _, n := range names {
 				c, err := p.ContextForLanguage(langs[n], schemas)
 				if err != nil {
-					check("context:"+n, J{"err": firstLine(err.Error())})
+					check("context:"+n, J{"err": pipeFirstLine(err.Error())})
 					continue
 				}
 				check("context:"+n, nil)
@@ -947,7 +947,7 @@ func c07Immut(args []string) int {
 				_, err = langs[n].Jennies(cfg).GenerateFS(c)
 				e := ""
 				if err != nil {
-					e = firstLine(err.Error())
+					e = pipeFirstLine(err.Error())
 				}
 				ctxAfter, _ := json.Marshal(c.Schemas)
 				check("jennies:"+n, J{"err": e, "language_copy_same": bytes.Equal(ctxBefore, ctxAfter)})
@@ -955,7 +955,7 @@ func c07Immut(args []string) int {
 			for _, chain := range job.Chains {
 				passes, err := verifapi.NewCompilerLoader().PassesFrom([]string{chain})
 				if err != nil {
-					check("chain:"+filepath.Base(chain), J{"err": "load: " + firstLine(err.Error())})
+					check("chain:"+filepath.Base(chain), J{"err": "load: " + pipeFirstLine(err.Error())})
 					continue
 				}
 				pb := dumpPasses(passes)
@@ -989,7 +989,7 @@ func errStr(e error) string {
 	if e == nil {
 		return ""
 	}
-	return firstLine(e.Error())
+	return pipeFirstLine(e.Error())
 }
 
 func countObjects(s verifapi.Schemas) int {
